@@ -19,7 +19,7 @@ from harness import core
 
 PROP = 'C05'
 MODULE = 'Props.C05'
-THEOREMS = ['C05_invariant', 'C05_invariant_initially', 'C05_count_fold', 'C05_count_fold_contextual',
+THEOREMS = ['C05_generator_ops_matched', 'C05_suspended_steps_matched', 'C05_invariant', 'C05_invariant_initially', 'C05_count_fold', 'C05_count_fold_contextual',
             'C05_entries_minus_exits', 'C05_nonneg', 'C05_released_at_zero', 'C05_tracing_while_positive',
             'C05_call_restores', 'C05_matched_restores', 'C05_matched_restores_contextual',
             'C05_inside_call_positive', 'C05_threads', 'C05_threads_commute', 'C05_lineprofiler_meets_spec',
@@ -84,33 +84,30 @@ def coq_hist(h):
 def obj_expand(t, name, st, n):
     E, O, D = ('p', t, 'en'), ('o', t), ('p', t, 'dis')
     if name in ('gnew', 'gnewr'):
-        return ([], ('gen', n + 1)) if st is None else ([], st)
+        return ([], ('fresh', n + 1)) if st is None else ([], st)
     if st is None:
         if name == 'costart':
             return [E, O], ('co',)
         if name == 'agstart':
             return [E, O], ('agmid',)
         return [], st
-    if st[0] == 'gen':
+    if st[0] in ('fresh', 'susp'):
         if name == 'gnext':
-            return [E, O, D], (None if st[1] <= 1 else ('gen', st[1] - 1))
+            return [E, O, D], (None if st[1] <= 1 else ('susp', st[1] - 1))
         if name in ('gclose', 'gthrow', 'gdrop'):
-            return [], None
+            # forwarded into the wrapped generator between one enable/disable pair - unless never started
+            return ([E, O, D] if st[0] == 'susp' else []), None
     elif st[0] == 'co':
-        if name == 'coresume':
+        if name in ('coresume', 'coclose', 'cothrow', 'codrop'):
             return [O, D], None
-        if name in ('coclose', 'cothrow', 'codrop'):
-            return [D], None
     elif st[0] == 'agmid':
         if name == 'agresume':
             return [O, D], ('agyield',)
         if name == 'agclose':
-            return [D], None
+            return [O, D], None
     elif st[0] == 'agyield':
-        if name == 'agresume':
+        if name in ('agresume', 'agclose'):
             return [E, O, D], None
-        if name == 'agclose':
-            return [], None
     return [], st
 
 
@@ -134,6 +131,8 @@ def expand(t, c, sl):
     if k == 'catch':
         eb, _ = expand(t, c[1], sl)
         return eb, False
+    if k == 'foreign':
+        return [], False
     if k == 'obj':
         e, st = obj_expand(t, c[1], sl.get(c[2]), c[3] if len(c) > 3 else 0)
         if st is None:
@@ -178,7 +177,39 @@ def play(kind, n, evs, shared):
     return out
 
 
+def foreign_out(case):
+    """Reference for single-thread histories in which another party holds PROFILER_ID part of
+    the time: an enable_by_count() / decorated call that would have to register the tool raises
+    ValueError (-3 in the trace) and must leave count, trace slot and tool as they were."""
+    cnt, foreign, out = 0, False, []
+    lp = case['kind'] == 'LP'
+    for _t, c in case['hist']:
+        k = c[0]
+        if k == 'foreign':
+            if c[1] == 'acquire':
+                if foreign or cnt > 0:
+                    out.append(-3)
+                else:
+                    foreign = True
+            else:
+                foreign = False
+        elif (k in ('p', 'ctx') and c[1] == 'en') or k == 'call':
+            if cnt == 0 and foreign:
+                out.append(-3)
+            elif k == 'call':
+                out.extend([cnt + 1, int(lp), 1])      # the body's observation
+            else:
+                cnt += 1
+        else:
+            cnt = max(0, cnt - 1)
+        out.extend([cnt, int(lp and cnt > 0), 2 if foreign else int(cnt > 0)])
+    return out
+
+
 def spec_out(case):
+    if case.get('tag') == 'foreign':
+        return foreign_out(case)
+
     return play(case['kind'], case['n'], events(case['hist']), False)
 
 
@@ -202,6 +233,12 @@ def classify(case, out):
 
 def why(case, out):
     ref = spec_out(case)
+    if case.get('tag') == 'foreign':
+        for i, (a, b) in enumerate(zip(out, ref)):
+            if a != b:
+                return ('another party holds PROFILER_ID: trace position %d is %d, reference says %d (triples enable_count, '
+                        'gettrace, tool; -3 = the operation raised ValueError and must change nothing)' % (i, a, b))
+        return 'trace has length %d, reference has %d' % (len(out), len(ref))
     for i, (a, b) in enumerate(zip(out, ref)):
         if a != b:
             what = ('enable_count', 'sys.gettrace() is profiler', 'PROFILER_ID tool held')[i % 3]
@@ -265,6 +302,13 @@ def rand_case(rnd, kind=None):
     return dict(kind=kind, n=n, hist=hist, tag='rnd', owners=owners)
 
 
+def foreign_case(rnd):
+    ops = [P('en'), P('en'), P('dis'), ['ctx', 'en'], ['ctx', 'dis'], ['call', OBS], ['call', OBS],
+           ['foreign', 'acquire'], ['foreign', 'acquire'], ['foreign', 'release']]
+    return dict(kind=rnd.choice(['LP', 'LP', 'CP']), n=1, tag='foreign',
+                hist=[[0, rnd.choice(ops)] for _ in range(rnd.randrange(2, 9))])
+
+
 def finding_case():
     return dict(kind='CP', n=2, hist=[[0, P('en')], [1, P('dis')]], tag='finding')
 
@@ -278,6 +322,7 @@ def gen_cases(tier, rnd):
     cases += list(exhaustive1('LP', l1)) + list(exhaustive1('CP', l1c))
     cases += list(exhaustive2('LP', l2)) + list(exhaustive2('CP', min(l2, 5)))
     cases += [rand_case(rnd) for _ in range(nr)]
+    cases += [foreign_case(rnd) for _ in range(300 if tier == 'quick' else 5000)]
     scope = dict(single_thread_LP=l1, single_thread_CP=l1c, two_threads_LP=l2, two_threads_CP=min(l2, 5), random=nr)
     return cases, scope
 
@@ -337,7 +382,7 @@ def run(tier, seed):
     def search(budget):
         r2 = core.rng(seed + 1, PROP)
         c2 = list(exhaustive1('LP', 4)) + list(exhaustive1('CP', 3)) + list(exhaustive2('LP', 4)) \
-            + [rand_case(r2) for _ in range(6000)]
+            + [rand_case(r2) for _ in range(6000)] + [foreign_case(r2) for _ in range(1500)]
         o2, e2, _ = run_cases(impl, c2)
         for c, o, e in zip(c2, o2, e2):
             if not py_spec(c, o) and classify(c, o) is None:
@@ -352,7 +397,8 @@ def run(tier, seed):
     if model_ok:
         per = 400
         bodies = []
-        for chunk in core.chunks(list(zip(cases, outs)), per):
+        idx = [j for j, c in enumerate(cases) if c['tag'] != 'foreign']   # foreign-holder cases: python reference only
+        for chunk in core.chunks([(cases[j], outs[j]) for j in idx], per):
             rows = ['(case_ok %s %d%%nat %s %s)' % (c['kind'], c['n'], coq_hist(c['hist']),
                                                   core.coq_list([core.coq_z(x) for x in o])) for c, o in chunk]
             body = 'Definition rows : list (bool * bool) := [\n' + ';\n'.join(rows) + '].\n'
@@ -367,18 +413,18 @@ def run(tier, seed):
                 continue
             mism, sfail = sres[1]
             for i in mism:
-                j = k * per + i
+                j = idx[k * per + i]
                 res.mismatches.append(dict(case=cases[j], impl=dict(out=outs[j], err=errs[j]),
                                            model='differs (Wrap/CountInterp.v model_out)'))
             for i in sfail:
-                j = k * per + i
+                j = idx[k * per + i]
                 flagged.add(j)
                 res.spec_fails.append(dict(case=cases[j], impl=dict(out=outs[j], err=errs[j]),
                                            why='Coq-side spec: ' + why(cases[j], outs[j]), finding=classify(cases[j], outs[j])))
     n_py_only = 0
     for j, (c, o) in enumerate(zip(cases, outs)):
         if not py_spec(c, o) and j not in flagged:
-            n_py_only += 1
+            n_py_only += c['tag'] != 'foreign'
             res.spec_fails.append(dict(case=c, impl=dict(out=o, err=errs[j]), why=why(c, o), finding=classify(c, o)))
     if model_ok and n_py_only:
         res.infra_errors.append('python-side and Coq-side spec predicates disagree on %d case(s)' % n_py_only)
@@ -447,6 +493,7 @@ def run(tier, seed):
             'proved schedule-independent in C05_threads_commute)'])
     res.assumptions = ['one profiler instance; nothing else claims sys.monitoring PROFILER_ID or the trace slot',
                        'a suspended coroutine / async generator step is resumed or closed by the thread that started it',
+                       'histories in which another party holds PROFILER_ID (tag foreign) are checked against a python reference only, not against the Coq model',
                        'bodies of decorated callables use the profiler only through decorated calls / with-blocks (C05_call_restores); '
                        'bare operations are covered by the fold theorems']
     res.notes.append('ContextualProfile with several threads: every observation differing from the per-thread reference is '
